@@ -231,18 +231,21 @@ def rule_paired(rep: Report, repo: Repo) -> None:
     adv = [lx.lin_show(to_lin(py_ir(s.value), aenv)) for s in fj.body if isinstance(s, ast.AugAssign) and norm(s.target) == 'self.current_address']
     rep.check(ext == ['(flip, jump)'] and adv == ['2*w'], 'C02.PAIRED-UPDATE', 'insert_fj_op', f'words += {ext}; address += {adv}', f'{ASM}:{fj.lineno}')
     sp = repo.func(ASM, 'BinaryData.get_wflip_spot')
-    ext = [norm(s.value) for s in sp.body if isinstance(s, ast.AugAssign) and norm(s.target) == 'self.wflip_words']
-    adv = [lx.lin_show(to_lin(py_ir(s.value), aenv)) for s in sp.body if isinstance(s, ast.AugAssign) and norm(s.target) == 'self.next_wflip_address']
-    rets = [norm(r.value) for r in ast.walk(sp) if isinstance(r, ast.Return)]
-    new_spot = [norm(s.value) for s in sp.body if isinstance(s, ast.Assign) and norm(s.targets[0]) == 'wflip_spot']
-    rep.check(ext == ['(0, 0)'] and adv == ['2*w'] and new_spot == ['WFlipSpot(self.wflip_words, len(self.wflip_words), self.next_wflip_address)'],
-              'C02.PAIRED-UPDATE', 'get_wflip_spot:new-spot', f'spot {new_spot}; words += {ext}; wflip address += {adv}', f'{ASM}:{sp.lineno}',
-              expected='spot = (list, len(list), next address) BEFORE appending two words and advancing 2w')
-    hole = [r for r in rets if 'index' in r]
-    pops = [norm(s.value) for s in ast.walk(sp) if isinstance(s, ast.Assign) and norm(s.targets[0]) == 'index']
-    rep.check(hole == ['WFlipSpot(self.fj_words, index, self.first_address + self.memory_width * index)'] and pops == ['self.padding_ops_indices.pop()'],
-              'C02.PAIRED-UPDATE', 'get_wflip_spot:pad-hole', f'{hole}; index from {pops}', f'{ASM}:{sp.lineno}',
-              expected='hole address = segment first address + w * word index; each hole used once (pop)')
+    outs = method_outcomes(repo, ASM, 'BinaryData', 'get_wflip_spot')
+    holes = [o for o in outs if 'self.padding_ops_indices' in o.conds]
+    fresh = [o for o in outs if 'not self.padding_ops_indices' in o.conds]
+    ok_new = (len(fresh) == 1 and fresh[0].state == {'self.wflip_words': 'self.wflip_words + (0, 0)',
+                                                     'self.next_wflip_address': 'self.next_wflip_address + 2 * self.memory_width'}
+              and fresh[0].effects == ['_v1 := WFlipSpot(self.wflip_words, len(self.wflip_words), self.next_wflip_address)'.replace('_v1', fresh[0].result[1] or '?')]
+              and (fresh[0].result[1] or '').startswith('_v'))
+    rep.check(ok_new, 'C02.PAIRED-UPDATE', 'get_wflip_spot:new-spot', f'{[(o.state, o.effects, o.result) for o in fresh]}', f'{ASM}:{sp.lineno}',
+              expected='spot = (list, len(list), next address) taken BEFORE two words are appended and the address advances by 2w')
+    ok_hole = (len(holes) == 1 and not holes[0].state and len(holes[0].effects) == 1 and holes[0].effects[0].endswith(':= self.padding_ops_indices.pop()'))
+    if ok_hole:
+        v = holes[0].effects[0].split(' := ')[0]
+        ok_hole = holes[0].result == ('return', f'WFlipSpot(self.fj_words, {v}, self.first_address + self.memory_width * {v})')
+    rep.check(ok_hole and len(outs) == 2, 'C02.PAIRED-UPDATE', 'get_wflip_spot:pad-hole', f'{[(o.effects, o.result) for o in holes]}', f'{ASM}:{sp.lineno}',
+              expected='hole address = segment first address + w * word index; each hole used once (one pop)')
     pad = inline_pure_temps(repo.func(ASM, 'BinaryData.insert_padding'))
     # two equivalent shapes are recognised: the append loop, and extend(range(..)) + one bulk extension of the word list. in both
     # the recorded indices are range(L, L + 2k, 2) with L = len(fj_words) on entry and the word list grows by 2k zero words
